@@ -155,6 +155,24 @@ pub fn eval(rng: &mut Rng, pats: &[(G, usize)], host: &G, heurs: &[Heur], o: &mu
             continue;
         };
         present.push(true);
+        // the pattern -> constraint vector conversion (line_partition, constraint_vec), not-equal arguments as a set
+        {
+            let canon: Vec<S> = cs.iter().map(|c| {
+                if let PGPredicate::IsNotEqual { n_other } = c.predicate() {
+                    let args = c.required_bindings();
+                    let mut rest: Vec<PGIndexKey> = args[1..].to_vec();
+                    rest.sort();
+                    let mut v = vec![sexp::a("ne"), sexp::a(n_other)];
+                    let mut all = vec![args[0]];
+                    all.extend(rest);
+                    v.push(sexp::list(&all, pgkey_s));
+                    S::L(v)
+                } else {
+                    pgcons_s(c)
+                }
+            }).collect();
+            o.case(sexp::l(vec![sexp::a("pg-cvec"), p.to_s(), sexp::a(r)]).to_string(), ok(S::L(canon)), p.live().len() >= 3);
+        }
         let cs_s = sexp::list(&cs, pgcons_s);
         all_css.push(cs_s.clone());
         let got = catch(|| {
